@@ -154,33 +154,7 @@ def check(model, R, tier):
         ok = len(total) == 1 and len(tr) == 1 and len(fr) == 1 and all(norm(n.value) in ('%s.size' % v, '%s.numel()' % v, '%s.data.size' % v) for n in incs) \
             and len({norm(n.target) for n in incs}) == 3
     R.ob('C12.ONCE', npf.qualname, 'total / trainable / frozen counters over self.parameters()', ok, 'each parameter element must be counted once, in exactly one of trainable / non-trainable', npf.loc)
-    # ---------------------------------------------------------------- MODE
-    R.rule('C12.MODE', 'train()/eval() set self.training, recurse into every submodule with the same method and return self; zero_grad/freeze/unfreeze act on parameters() only', floor=5)
-    for name, val in (('train', True), ('eval', False)):
-        f = model.func('%s.%s' % (MOD, name))
-        cfg = CFG(f.node)
-        sets = [n for n in body_walk(f.node) if isinstance(n, ast.Assign) and norm(n.targets[0]) == 'self.training']
-        loops = [n for n in body_walk(f.node) if isinstance(n, ast.For) and norm(n.iter) == 'self.submodules()']
-        ok = len(sets) == 1 and isinstance(sets[0].value, ast.Constant) and sets[0].value.value is val and not cfg.conditions(sets[0])
-        ok2 = len(loops) == 1
-        if ok2:
-            v = norm(loops[0].target)
-            calls = [s for s in loops[0].body if isinstance(s, ast.Expr) and norm(s.value) == '%s.%s()' % (v, name)]
-            ok2 = len(calls) == 1 and len(loops[0].body) == 1 and not cfg.conditions(loops[0])
-        last = f.node.body[-1]
-        ok3 = isinstance(last, ast.Return) and norm(last.value) == 'self'
-        R.ob('C12.MODE', f.qualname, 'self.training = %s; recurse %s(); return self' % (val, name), ok and ok2 and ok3,
-             '%s() must set the flag unconditionally, call %s() on every submodule and return self' % (name, name), f.loc)
-    for name, body_ok in (('zero_grad', None), ('freeze', ('requires_grad', False)), ('unfreeze', ('requires_grad', True))):
-        f = model.func('%s.%s' % (MOD, name))
-        loops = [n for n in f.node.body if isinstance(n, ast.For)]
-        rest = [n for n in f.node.body if not isinstance(n, ast.For) and not (isinstance(n, ast.Expr) and isinstance(n.value, ast.Constant))]
-        ok = len(loops) == 1 and not rest and norm(loops[0].iter) == 'self.parameters()'
-        if ok and body_ok:
-            v = norm(loops[0].target)
-            b = loops[0].body
-            ok = len(b) == 1 and isinstance(b[0], ast.Assign) and norm(b[0].targets[0]) == '%s.%s' % (v, body_ok[0]) and isinstance(b[0].value, ast.Constant) and b[0].value.value is body_ok[1]
-        R.ob('C12.MODE', f.qualname, 'loop over self.parameters()', ok, '%s must act on exactly the parameters reported by parameters()' % name, f.loc)
+    check_mode(model, R, 'C12')
     # ---------------------------------------------------------------- SUBCLASS
     subs = model.subclasses(MOD)
     R.rule('C12.SUBCLASS', 'every Module subclass calls super().__init__() before assigning attributes, overrides none of __setattr__/parameters/submodules/train/eval/register_*, and has a forward', floor=len(subs))
@@ -289,3 +263,33 @@ def check_parameters(model, R, pf):
                 guarded = True
         ok = ok and guarded
     R.ob('C12.ONCE', pf.qualname, 'growth of %s: %s' % (res, [norm(g[0]) for g in grows]), ok, why, pf.loc)
+
+
+def check_mode(model, R, P):
+    # ---------------------------------------------------------------- MODE
+    R.rule(P + '.MODE', 'train()/eval() set self.training, recurse into every submodule with the same method and return self; zero_grad/freeze/unfreeze act on parameters() only', floor=5)
+    for name, val in (('train', True), ('eval', False)):
+        f = model.func('%s.%s' % (MOD, name))
+        cfg = CFG(f.node)
+        sets = [n for n in body_walk(f.node) if isinstance(n, ast.Assign) and norm(n.targets[0]) == 'self.training']
+        loops = [n for n in body_walk(f.node) if isinstance(n, ast.For) and norm(n.iter) == 'self.submodules()']
+        ok = len(sets) == 1 and isinstance(sets[0].value, ast.Constant) and sets[0].value.value is val and not cfg.conditions(sets[0])
+        ok2 = len(loops) == 1
+        if ok2:
+            v = norm(loops[0].target)
+            calls = [s for s in loops[0].body if isinstance(s, ast.Expr) and norm(s.value) == '%s.%s()' % (v, name)]
+            ok2 = len(calls) == 1 and len(loops[0].body) == 1 and not cfg.conditions(loops[0])
+        last = f.node.body[-1]
+        ok3 = isinstance(last, ast.Return) and norm(last.value) == 'self'
+        R.ob(P + '.MODE', f.qualname, 'self.training = %s; recurse %s(); return self' % (val, name), ok and ok2 and ok3,
+             '%s() must set the flag unconditionally, call %s() on every submodule and return self' % (name, name), f.loc)
+    for name, body_ok in (('zero_grad', None), ('freeze', ('requires_grad', False)), ('unfreeze', ('requires_grad', True))):
+        f = model.func('%s.%s' % (MOD, name))
+        loops = [n for n in f.node.body if isinstance(n, ast.For)]
+        rest = [n for n in f.node.body if not isinstance(n, ast.For) and not (isinstance(n, ast.Expr) and isinstance(n.value, ast.Constant))]
+        ok = len(loops) == 1 and not rest and norm(loops[0].iter) == 'self.parameters()'
+        if ok and body_ok:
+            v = norm(loops[0].target)
+            b = loops[0].body
+            ok = len(b) == 1 and isinstance(b[0], ast.Assign) and norm(b[0].targets[0]) == '%s.%s' % (v, body_ok[0]) and isinstance(b[0].value, ast.Constant) and b[0].value.value is body_ok[1]
+        R.ob(P + '.MODE', f.qualname, 'loop over self.parameters()', ok, '%s must act on exactly the parameters reported by parameters()' % name, f.loc)
